@@ -38,6 +38,49 @@ func allocIsPrivate(al *ssa.Alloc) bool {
 	return true
 }
 
+// allocIsPrivateAgg: a local struct whose address never leaves the function: it is stored to and loaded from as a
+// whole, and its field addresses are only stored through and loaded from (a by-value struct parameter or receiver
+// spilled to a local so that its fields can be addressed).  No callee can write it.
+func allocIsPrivateAgg(al *ssa.Alloc) bool {
+	if al.Referrers() == nil {
+		return false
+	}
+	if _, isStruct := al.Type().Underlying().(*types.Pointer).Elem().Underlying().(*types.Struct); !isStruct {
+		return false
+	}
+	for _, r := range *al.Referrers() {
+		switch x := r.(type) {
+		case *ssa.Store:
+			if x.Addr != ssa.Value(al) {
+				return false
+			}
+		case *ssa.UnOp, *ssa.DebugRef:
+		case *ssa.FieldAddr:
+			if x.Referrers() == nil {
+				continue
+			}
+			for _, r2 := range *x.Referrers() {
+				switch y := r2.(type) {
+				case *ssa.Store:
+					if y.Addr != ssa.Value(x) {
+						return false
+					}
+				case *ssa.UnOp, *ssa.DebugRef:
+				default:
+					return false
+				}
+			}
+		default:
+			return false
+		}
+	}
+	return true
+}
+
+func allocID(x *ssa.Alloc) string {
+	return fmt.Sprintf("%s.%s@%d", x.Parent().Name(), x.Name(), x.Pos())
+}
+
 // aclass is the alias class of a memory access.
 type aclass struct {
 	kind   byte       // 'f' field, 'e' element, 'd' deref, 'a' private alloc, 'm' map, '?' anything
@@ -52,6 +95,9 @@ func (a aclass) String() string {
 	case 'f':
 		return fmt.Sprintf("f:%s.%d", a.owner, a.field)
 	case 'a':
+		if a.field > 0 {
+			return fmt.Sprintf("a:%s.%d", a.owner, a.field-1)
+		}
 		return "a:" + a.owner
 	case '?':
 		return "?"
@@ -66,13 +112,16 @@ func classOf(addr ssa.Value) aclass {
 	}
 	switch x := addr.(type) {
 	case *ssa.FieldAddr:
+		if al, isAl := x.X.(*ssa.Alloc); isAl && allocIsPrivateAgg(al) {
+			return aclass{kind: 'a', typ: pt.Elem(), owner: allocID(al), field: x.Field + 1}
+		}
 		st := x.X.Type().Underlying().(*types.Pointer).Elem()
 		return aclass{kind: 'f', typ: pt.Elem(), owner: typeStr(st), ownerT: st, field: x.Field}
 	case *ssa.IndexAddr:
 		return aclass{kind: 'e', typ: pt.Elem()}
 	case *ssa.Alloc:
-		if allocIsPrivate(x) {
-			return aclass{kind: 'a', typ: pt.Elem(), owner: fmt.Sprintf("%s.%s@%d", x.Parent().Name(), x.Name(), x.Pos())}
+		if allocIsPrivate(x) || allocIsPrivateAgg(x) {
+			return aclass{kind: 'a', typ: pt.Elem(), owner: allocID(x)}
 		}
 	}
 	return aclass{kind: 'd', typ: pt.Elem()}
@@ -100,11 +149,13 @@ func typeContains(outer, inner types.Type, d int) bool {
 
 // mayAlias: can a write of class w change what a read of class r sees?
 func mayAlias(w, r aclass) bool {
+	if w.kind == 'a' || r.kind == 'a' {
+		// a private local (its address never leaves the function): only an access to that very local — the whole of it
+		// (field 0) or the same field — can touch it, whatever a callee may write
+		return w.kind == r.kind && w.owner == r.owner && (w.field == 0 || r.field == 0 || w.field == r.field)
+	}
 	if w.kind == '?' || r.kind == '?' {
 		return true
-	}
-	if w.kind == 'a' || r.kind == 'a' {
-		return w.kind == r.kind && w.owner == r.owner
 	}
 	if w.kind == 'm' || r.kind == 'm' {
 		return w.kind == r.kind && types.Identical(w.typ, r.typ)
@@ -1472,6 +1523,11 @@ func (pr *Prover) NonNil(v ssa.Value, at *ssa.BasicBlock, depth int) bool {
 			if fv, ok := x.X.(*ssa.FreeVar); ok && pr.p.freeCellNonNil(fv) {
 				return true
 			}
+			// a pointer field of a local struct (a by-value parameter spilled, a composite temporary) that only ever
+			// holds non-nil values, followed through copies and the call sites of unexported functions
+			if _, isFA := x.X.(*ssa.FieldAddr); isFA && depth < 3 && pr.p.aggFieldStrongNonNil(x) {
+				return true
+			}
 			if gl, ok := x.X.(*ssa.Global); ok && pr.p.nonNilGlobalValue(gl) {
 				return true // assigned once, in init, from fmt.Errorf / errors.New
 			}
@@ -2012,11 +2068,20 @@ func (p *Prog) freeCellNonNil(fv *ssa.FreeVar) bool {
 						ppr = NewProver(p, par)
 						ppr.assumeContracts()
 					}
-					if !ppr.NonNil(x.Val, x.Block(), 0) {
-						// the enclosing function's own pointer parameter, captured as it is: non-nil when every call
-						// site of that function passes a non-nil argument
+					valOK := ppr.NonNil(x.Val, x.Block(), 0)
+					if types.IsInterface(x.Val.Type()) {
+						// an interface cell: usable means non-nil with a non-nil payload
+						valOK = isStrongNonNil(ppr, x.Val, x.Block())
+						if _, isPrm := x.Val.(*ssa.Parameter); isPrm {
+							valOK = false // decided at the call sites below
+						}
+					}
+					if !valOK {
+						// the enclosing function's own pointer (or interface) parameter, captured as it is: non-nil when
+						// every call site of that function passes a (strongly) non-nil argument
 						if prm, isPrm := x.Val.(*ssa.Parameter); isPrm && closedCallSites(par) && x.Block() == par.Blocks[0] {
-							if _, isPtr := prm.Type().Underlying().(*types.Pointer); isPtr {
+							_, isPtr := prm.Type().Underlying().(*types.Pointer)
+							if isPtr || types.IsInterface(prm.Type()) {
 								needIdx = append(needIdx, paramIndex(par, prm))
 								continue
 							}
